@@ -407,6 +407,9 @@ func verifDir() string {
 	return "/verif"
 }
 
+// RealStderr is the process's real standard error (workers redirect os.Stderr).
+var RealStderr = os.Stderr
+
 // Main is the entry point of every check binary.
 func Main(spec Spec) {
 	tier := flag.String("tier", "quick", "quick|thorough")
@@ -438,6 +441,11 @@ func Main(spec Spec) {
 		return
 	}
 	if *worker {
+		// the library's tail handler prints every unhandled exception to os.Stderr;
+		// silence it in workers (engine errors use RealStderr)
+		if dn, err := os.OpenFile(os.DevNull, os.O_WRONLY, 0); err == nil {
+			os.Stderr = dn
+		}
 		s := scs[*scen]
 		dl := time.Unix(*deadlineUnix, 0)
 		var r *Result
